@@ -18,6 +18,7 @@ An MTU too small to segment must fail with nothing sent. An endless generator wo
 import itertools
 import json
 import signal
+import socket
 import sys
 from io import BytesIO
 
@@ -99,6 +100,34 @@ def chan_str(c):
     return '%s|%s|%s' % tuple(c)
 
 
+class FakeEthSock(object):
+    ''' stands in for the AF_PACKET socket: recvfrom returns the prepared Ethernet frame; send records '''
+
+    def __init__(self, ifname='eth0', mac='02-00-00-00-00-01', sink=None):
+        self.ifname, self.mac = ifname, mac
+        self.next = None
+        self.sent = sink if sink is not None else []
+
+    def recvfrom(self, datalen):
+        frame, src = self.next
+        return frame[:datalen], (self.ifname, 0x88b5, socket.PACKET_HOST, 1, src)
+
+    def getsockname(self):
+        return (self.ifname, 0x88b5, 0, 1, bytes(int(x, 16) for x in self.mac.split('-')))
+
+    def send(self, frame):
+        self.sent.append(bytes(frame)[14:])
+
+    def setsockopt(self, *a, **k):
+        pass
+
+    def fileno(self):
+        return -1
+
+    def close(self):
+        pass
+
+
 class Rig(object):
     def __init__(self):
         boot.boot()
@@ -137,7 +166,7 @@ class Rig(object):
         return ('endless', out) if more else ('ok', out)
 
     def process_tx(self, xfer, data, mtu, bound):
-        ''' the transfer through _add_tx_item + _process_tx_queue with a recording socket →
+        ''' the transfer through send_bundle_data and the idle source it registers, with a recording socket →
         (payloads of the Ethernet frames sent, escaped exception class or None, endless?) '''
         ag = self.agent(mtu)
         sent = []
@@ -160,17 +189,69 @@ class Rig(object):
         orig = self.ba.EthernetChannel.make_local_socket
         self.ba.EthernetChannel.make_local_socket = lambda _self: FakeSock()
         try:
-            item = self.ba.BundleItem(address='02-00-00-00-00-09', local_if='veth0', file=BytesIO(data), transfer_id=xfer)
-            ag._add_tx_item(item)
+            ag._tx_id = xfer         # the next transfer number (input set-up); everything else is the agent's own path
+            got_id = []
+
+            def go():
+                got_id.append(ag.send_bundle_data(list(data), {'address': '02-00-00-00-00-09', 'local_if': 'veth0'}))
+                n = 0
+                while self.glib.LOOP.pending('idle') and n < 50:
+                    for src in self.glib.LOOP.pending('idle'):
+                        self.glib.LOOP.fire(src)
+                        n += 1
             try:
-                guarded(ag._process_tx_queue, 60.0)
+                guarded(go, 60.0)
             except Stop:
                 return sent, None, True
             except Hang:
                 return sent, 'cpu', False
             except Exception as err:   # noqa
                 return sent, type(err).__name__, False
+            esc = [type(e).__name__ for (_s, e) in self.glib.LOOP.escaped]
+            if any(e == 'Stop' for e in esc):
+                return sent, None, True
+            if esc:
+                return sent, esc[0], False
+            if got_id != [str(xfer)]:
+                return sent, 'id:%s' % got_id, False
             return sent, None, False
+        finally:
+            self.ba.EthernetChannel.make_local_socket = orig
+
+    def send_several(self, n, size, mtu):
+        ''' n bundles through send_bundle_data on ONE agent, idle sources fired → (ids returned, transfer numbers
+        seen in the frames of each, escaped) '''
+        ag = self.agent(mtu)
+        sent = []
+
+        class FakeSock(object):
+            def send(self, frame):
+                sent.append(bytes(frame)[14:])
+
+            def fileno(self):
+                return -1
+
+            def close(self):
+                pass
+
+        orig = self.ba.EthernetChannel.make_local_socket
+        self.ba.EthernetChannel.make_local_socket = lambda _self: FakeSock()
+        try:
+            ids, nums = [], []
+            for k in range(n):
+                del sent[:]
+                try:
+                    ids.append(str(ag.send_bundle_data(list(payload(size, k)), {'address': '02-00-00-00-00-09', 'local_if': 'veth0'})))
+                    c = 0
+                    while self.glib.LOOP.pending('idle') and c < 50:
+                        for src in self.glib.LOOP.pending('idle'):
+                            self.glib.LOOP.fire(src)
+                            c += 1
+                except Exception as err:   # noqa
+                    return ids, nums, type(err).__name__
+                nums.append(sorted(set(int.from_bytes(f[10:14], 'big') for f in sent if len(f) >= 18 and f[0] in (3, 4))))
+            esc = [type(e).__name__ for (_s, e) in self.glib.LOOP.escaped]
+            return ids, nums, (esc[0] if esc else None)
         finally:
             self.ba.EthernetChannel.make_local_socket = orig
 
@@ -227,21 +308,39 @@ class Rig(object):
                          'payload': bytes(pl).hex(), 'body': body})
         return {'msgs': msgs, 'rest': bytes(pkt.payload).hex(), 'reenc': bytes(pkt).hex()}
 
-    def recv(self, frames, fire_timers=False):
+    def deliver(self, ag, via, chan, data):
+        ''' hand one frame payload to the agent: directly to `_recv_msg`, or as an Ethernet frame through the socket
+        callback `_sock_recvfrom` → 'done' | 'raised:<class>' | 'hang' | 'stopped-listening' '''
+        ifn, peer, local = chan
+
+        def mac(x):
+            return bytes(int(b, 16) for b in x.split('-'))
+
+        def go():
+            if via == 'sock':
+                sock = FakeEthSock(ifn, local)
+                sock.next = (mac(local) + mac(peer) + b'\x88\xb5' + data, mac(peer))
+                return ag._sock_recvfrom(sock)
+            conv = self.ba.EthernetChannel(local_if=ifn, peer_address=self.mac.EUI48(peer), local_address=self.mac.EUI48(local))
+            ag._recv_msg(None, data, conv)
+            return True
+        try:
+            keep = guarded(go, 5.0)
+        except Hang:
+            return 'hang'
+        except Exception as err:   # noqa
+            return 'raised:' + type(err).__name__
+        return 'done' if keep else 'stopped-listening'
+
+    def recv(self, frames, fire_timers=False, via='direct'):
         ag = self.agent(None)
         outs, snaps = [], []
         for f in frames:
-            ifn, peer, local = f['chan']
-            conv = self.ba.EthernetChannel(local_if=ifn, peer_address=self.mac.EUI48(peer), local_address=self.mac.EUI48(local))
             if f.get('fire'):   # fire the oldest pending timeout first (timing scenario)
                 pend = self.glib.LOOP.pending('timeout')
                 if pend:
                     self.glib.LOOP.fire(pend[0])
-            try:
-                ag._recv_msg(None, bytes.fromhex(f['hex']), conv)
-                outs.append('done')
-            except Exception as err:   # noqa
-                outs.append('raised:' + type(err).__name__)
+            outs.append(self.deliver(ag, via, f['chan'], bytes.fromhex(f['hex'])))
             snaps.append(len(ag.recv_bundle_get_queue()))
         sigs = {}
         for (_p, name, _sig, args) in ag._verif_signals:
@@ -421,6 +520,20 @@ def run_send(chk, rig, cases):
                     d['msgs'][0]['payload'] != r[0][0][3].hex():
                 chk.violation('C20:built-frame-does-not-roundtrip', f[:40].hex(), rep)
                 break
+
+
+def run_send_ids(chk, rig):
+    ''' transfers of one agent must not share a transfer number: a receiver keys its reassembly on it '''
+    for (n, size, mtu) in ((3, 60, 40), (5, 100, 30)):
+        ids, nums, esc = rig.send_several(n, size, mtu)
+        rep = {'kind': 'send-ids', 'n': n, 'size': size, 'mtu': mtu}
+        chk.case(rep, nontrivial=True)
+        chk.count('send:series')
+        if esc is not None:
+            chk.violation('C20:send-path-raises', 'send_bundle_data / the idle callback raised %s' % esc, rep)
+        elif len(set(ids)) != len(ids) or any(len(x) != 1 for x in nums) or [str(x[0]) for x in nums] != ids:
+            chk.violation('C20:tx-id-reused', 'send_bundle_data returned ids %s; transfer numbers in the frames: %s — segments of different '
+                          'bundles would be reassembled into one transfer' % (ids, nums), rep)
 
 
 # ---------------------------------------------------------------- codec
@@ -715,7 +828,8 @@ def malformed_scenarios(chk):
 def run_recv(chk, rig, scs, label):
     reqs, obs = [], []
     for sc in scs:
-        outs, snaps, queue, pending, stale = rig.recv(sc['frames'], fire_timers=(label == 'reasm'))
+        sc['via'] = sc.get('via') or ('sock' if (label == 'reasm' and len(reqs) % 2 == 1) else 'direct')
+        outs, snaps, queue, pending, stale = rig.recv(sc['frames'], fire_timers=(label == 'reasm'), via=sc['via'])
         reqs.append({'op': 'btpu.recv', 'frames': [{'chan': chan_str(f['chan']), 'addr': f['chan'][1], 'hex': f['hex']} for f in sc['frames']]})
         obs.append((outs, snaps, queue, pending, stale))
     answers = chk.driver(reqs) if reqs else []
@@ -808,6 +922,9 @@ def rx_queue_histories(rng, tier):
             idx += n
         phases[-1]['pop'] = 'all'
         hs.append({'kind': 'rxq', 'phases': phases})
+    for k, h in enumerate(hs):
+        h['via'] = ['direct', 'sock'][k % 2]      # how a frame enters the agent
+        h['pop_file'] = k % 3 != 0                # every second pop through recv_bundle_pop_file
     return hs
 
 
@@ -824,12 +941,13 @@ def run_rx_queue_history(rig, hist, rng):
 
     for phase in hist['phases']:
         for f in phase['frames']:
-            ifn, peer, local = f['chan']
-            conv = rig.ba.EthernetChannel(local_if=ifn, peer_address=rig.mac.EUI48(peer), local_address=rig.mac.EUI48(local))
-            try:
-                ag._recv_msg(None, bytes.fromhex(f['hex']), conv)
-            except Exception as err:   # noqa
-                note('rx-exception', '_recv_msg raised %s on a well-formed frame' % type(err).__name__)
+            oc = rig.deliver(ag, hist.get('via', 'direct'), f['chan'], bytes.fromhex(f['hex']))
+            if oc == 'hang':
+                note('rx-hang', 'the %s receive callback does not return' % hist.get('via', 'direct'))
+            elif oc == 'stopped-listening':
+                note('rx-callback-stops-listening', 'the socket receive callback returned a false value')
+            elif oc != 'done':
+                note('rx-exception', 'the %s receive path raised %s on a well-formed frame' % (hist.get('via', 'direct'), oc[7:]))
             for m in f['msgs']:
                 if m[0] == 'bundle':
                     ref.bundle(tuple(f['chan']), bytes.fromhex(m[1]))
@@ -865,7 +983,20 @@ def run_rx_queue_history(rig, hist, rng):
         for bid in todo:
             exp = [a for a in announced if a[0] == bid]
             try:
-                got = bytes(ag.recv_bundle_pop_data(bid))
+                if hist.get('pop_file') and len(popped) % 2 == 1:
+                    import os
+                    import tempfile
+                    fd, path = tempfile.mkstemp(prefix='verif_pop_')
+                    os.close(fd)
+                    try:
+                        ag.recv_bundle_pop_file(bid, path)
+                        import gc
+                        gc.collect()
+                        got = open(path, 'rb').read()
+                    finally:
+                        os.unlink(path)
+                else:
+                    got = bytes(ag.recv_bundle_pop_data(bid))
                 trace.append({'pop': bid, 'result': got.hex()[:60]})
                 if not exp:
                     note('rx-queue-mismatch', 'the queue listed id %r that was never announced' % bid)
@@ -947,6 +1078,7 @@ def run(chk):
         'portion stub: singleton/closed/==/in on integer intervals',
     ]
     run_send(chk, rig, send_cases(chk))
+    run_send_ids(chk, rig)
     run_codec(chk, rig, codec_frames(chk))
     run_build(chk, rig)
     run_recv(chk, rig, recv_scenarios(chk, rig), 'reasm')
@@ -986,7 +1118,7 @@ def replay(chk, path):
             print('MONITOR %s: %s' % (sig, what))
         return 1 if viol else 0
     if rep.get('kind') == 'recv':
-        outs, snaps, queue, pending, _st = rig.recv(rep['frames'])
+        outs, snaps, queue, pending, _st = rig.recv(rep['frames'], via=rep.get('via', 'direct'))
         ans = chk.driver([{'op': 'btpu.recv', 'frames': [{'chan': chan_str(f['chan']), 'addr': f['chan'][1], 'hex': f['hex']} for f in rep['frames']]}])[0]
         print('frames: %s' % [(chan_str(f['chan']), f['hex'][:80]) for f in rep['frames']])
         print('observed: outcomes %s, queue sizes %s, queue %s, partial transfers %d' % (outs, snaps, [(q['id'], q['hex'][:40]) for q in queue], pending))
